@@ -66,6 +66,8 @@ type c14Drv struct {
 	bodyDir string
 	cases   int
 	samples []any
+	jcases  int             // JSON documents so far
+	many    bool            // the next default header set has a key with many values
 	other   vegeta.Targeter // a second http targeter that lives next to the one under test and is read in turns with it
 	otherK  int             // draws from it so far
 }
@@ -150,7 +152,7 @@ func (d *c14Drv) defaults(spare bool) (http.Header, []hdrPair) {
 		}
 		h[key] = vs
 	}
-	if d.cases%6 == 4 { // a default header with many values (17, 19, 21, 33, 35: lengths a copying idiom does not size exactly)
+	if d.cases%6 == 4 || d.many { // a default header with many values (17, 19, 21, 33, 35: lengths a copying idiom does not size exactly)
 		k := []int{17, 19, 33, 35, 21}[d.cases/6%5]
 		vs := make([]string, k)
 		for j := range vs {
@@ -352,7 +354,10 @@ func (d *c14Drv) httpCase(kinds []string, spare bool, trailingNL bool, eager boo
 
 func (d *c14Drv) jsonCase(n int, spare bool, viaEncoder bool) {
 	d.cases++
+	d.jcases++
+	d.many = d.jcases%3 == 1 // (taken in turn over the JSON documents, whatever their place among all cases)
 	defHdr, defList := d.defaults(spare)
+	d.many = false
 	var defBody []byte
 	if d.r.Intn(2) == 0 {
 		defBody = []byte("body:<default>")
